@@ -131,12 +131,13 @@ def file_level(ctx, exe, files, root, results):
     for r in results:
         for k in r['stats']:
             if k.startswith('sim_'): sims[r['rel']] = k[4:]
-    demo, err = W.run_exe(exe, ['demo\t-', 'demo\tA'])
-    if demo is None or len(demo) != 2 or not demo[0] or not demo[1]:
+    demo, err = W.run_exe(exe, ['demo\t-', 'demo\tA', 'demo\tP'])
+    if demo is None or len(demo) != 3 or not all(demo):
         ctx.proof_failures.append({'kind': 'proof', 'name': 'demo-listing', 'detail': 'the driver did not return the demonstration listings: ' + err})
     else:
         jobs.append(dict(rel='(Witness2.v demo listing)', lines=demo[0].split(','), skips='all', fchk=True, exe=exe, sim='TOUGH2', size=0, demo=True))
         jobs.append(dict(rel='(Witness3.v AUTOUGH2 demo listing)', lines=demo[1].split(','), skips='all', fchk=True, exe=exe, sim='AUTOUGH2', size=0, demo=True))
+        jobs.append(dict(rel='(Witness4.v TOUGH+ demo listing)', lines=demo[2].split(','), skips='all', fchk=True, exe=exe, sim='TOUGH+', size=0, demo=True))
     for f in files:
         rel = os.path.relpath(f, root)
         size = os.path.getsize(f)
@@ -156,7 +157,7 @@ def file_level(ctx, exe, files, root, results):
     with multiprocessing.Pool(vf.NPROC) as pool:
         out = pool.map(W.file_job, jobs, chunksize=1)
     ncase = cells = visits = 0
-    inclass, outclass = [], {}
+    inclass, outclass, general = [], {}, []
     for j, r in zip(jobs, out):
         if r['error']:
             ctx.proof_failures.append({'kind': 'correspondence', 'name': FILE_CORR, 'detail': '%s: %s' % (r['rel'], r['error'])})
@@ -169,13 +170,15 @@ def file_level(ctx, exe, files, root, results):
                                  d[2], d[1])
         cells += r['cells']; visits += r['visits']
         if r['fchk'] is not None and not r['subs']:
+            if r['fchk'].startswith('INCLASS') and 'class=general' in r['fchk']: general.append(r['rel'])
             if r['fchk'].startswith('INCLASS'): inclass.append(r['rel'])
             else: outclass[r['rel']] = r['fchk']
         if j.get('demo') and not (r['fchk'] or '').startswith('INCLASS'):
             ctx.proof_failures.append({'kind': 'correspondence', 'name': 'demo-listing-in-class', 'detail': str(r['fchk'])})
     ctx.corr_cases(FILE_CORR, ncase, result_set_visits=visits, cells_compared=cells, listings=len(jobs))
     ctx.hyp_met['listing_codec_law'] = {'tough2_family_and_autough2_listings_checked': len(inclass) + len(outclass),
-                                        'in_the_class_of_the_theorem(file_check=Some)': sorted(inclass),
+                                        'in_a_class_of_the_theorems(file_check|tp_check|afile_check|g2_check=Some)': sorted(inclass),
+                                        'of_these_only_in_the_general_class(g2_check: rows in any order, extra tables)': sorted(general),
                                         'outside_the_class': outclass}
     ctx.log('file level: %d open/index runs, %d result-set visits, %d cells; in class: %d, outside: %s' % (ncase, visits, cells, len(inclass), outclass))
 
@@ -267,7 +270,7 @@ def run(ctx):
     preload()
     pool = multiprocessing.Pool(vf.NPROC, maxtasksperchild=1)   # forked before any thread exists; one process per job: no job sees the state another left
     async_res = pool.map_async(W.process, jobs, chunksize=1)
-    ok = ctx.coq_build(props=('Props.v', 'Props2.v', 'Props3.v', 'Props4.v'), timeout=1500)
+    ok = ctx.coq_build(props=('Props.v', 'Props2.v', 'Props3.v', 'Props4.v', 'Props5.v'), timeout=1500)
     exe = vf.build_driver(ctx) if os.path.exists(os.path.join(ctx.build, 'Drv.ml')) else None
     if exe is None and ok:
         ctx.proof_failures.append({'kind': 'proof', 'name': 'extraction', 'detail': 'Drv.ml was not produced'})
